@@ -326,8 +326,10 @@ func Serve(opts Options) error {
 		monconns:  make(map[net.Conn]bool),
 		cols:      &btree.Map[string, *collection.Collection]{},
 
-		groupHooks:   btree.NewNonConcurrent(byGroupHook),
-		groupObjects: btree.NewNonConcurrent(byGroupObject),
+		// the group trees are also written by live geofence connections, which
+		// only hold the shared server lock, so they must do their own locking.
+		groupHooks:   btree.New(byGroupHook),
+		groupObjects: btree.New(byGroupObject),
 		hookExpires:  btree.NewNonConcurrent(byHookExpires),
 		opts:         opts,
 	}
